@@ -70,7 +70,7 @@ pub struct Expect
 }
 
 /* Run the history, then serve its ruler directory; `fixed_requests`: replay. */
-pub fn run_case(case : &Case, seed : u64, fixed_requests : Option<&Vec<(String, String)>>, mut stats : Option<&mut Stats>) -> (Vec<Violation>, Vec<(String, String)>)
+pub fn run_case(case : &Case, seed : u64, fixed_requests : Option<&Vec<(String, String, String)>>, mut stats : Option<&mut Stats>) -> (Vec<Violation>, Vec<(String, String, String)>)
 {
     let mut out = vec![];
     let mut runner = Runner::new(case);
@@ -117,7 +117,7 @@ pub fn run_case(case : &Case, seed : u64, fixed_requests : Option<&Vec<(String, 
     let mut classes : Vec<String> = vec![];
     match fixed_requests
     {
-        Some(r) => { reqs = r.clone(); classes = r.iter().map(|_| "replayed".to_string()).collect(); },
+        Some(r) => { reqs = r.iter().map(|(m, p, _)| (m.clone(), p.clone())).collect(); classes = r.iter().map(|(_, _, c)| c.clone()).collect(); },
         None =>
         {
             let some_valid = cache.keys().next().cloned().unwrap_or(random_name(&mut rng));
@@ -179,12 +179,12 @@ pub fn run_case(case : &Case, seed : u64, fixed_requests : Option<&Vec<(String, 
         (Err(_), _) =>
         {
             out.push(Violation{ prop : "C19", sig : "C19:server-panicked".to_string(), detail : "serve() panicked while answering the request sequence".to_string() });
-            return (out, reqs);
+            return (out, with_classes(&reqs, &classes));
         },
         _ =>
         {
             out.push(Violation{ prop : "C19", sig : "C19:server-stopped".to_string(), detail : "serve() returned without answering every request".to_string() });
-            return (out, reqs);
+            return (out, with_classes(&reqs, &classes));
         },
     };
 
@@ -265,10 +265,15 @@ pub fn run_case(case : &Case, seed : u64, fixed_requests : Option<&Vec<(String, 
         s.add("c19.recorded_pairs_served", rule_pairs.len() as u64);
         s.inc(&format!("c19.directory.{}", dir_class));
     }
-    (out, reqs)
+    (out, with_classes(&reqs, &classes))
 }
 
-pub fn replay(case : &Case, requests : &Vec<(String, String)>) -> Vec<(String, String)>
+fn with_classes(reqs : &Vec<(String, String)>, classes : &Vec<String>) -> Vec<(String, String, String)>
+{
+    reqs.iter().zip(classes.iter()).map(|((m, p), c)| (m.clone(), p.clone(), c.clone())).collect()
+}
+
+pub fn replay(case : &Case, requests : &Vec<(String, String, String)>) -> Vec<(String, String)>
 {
     run_case(case, 0, Some(requests), None).0.into_iter().map(|v| (v.sig, v.detail)).collect()
 }
@@ -309,7 +314,7 @@ pub fn run_one(cfg : &Config, seed : u64, k : u64, stats : &mut Stats) -> Vec<Fo
         found.push(Found
         {
             prop : "C19".to_string(), sig : v.sig.clone(), detail : detail,
-            explain : case.to_j().set("requests", J::Arr(best.iter().map(|(m, p)| J::Str(format!("{} {}", m, p))).collect())),
+            explain : case.to_j().set("requests", J::Arr(best.iter().map(|(m, p, c)| J::Str(format!("{} {}   ({})", m, p, c))).collect())),
             replay : Replay::Server{ case : case.clone(), requests : best },
         });
     }
